@@ -664,7 +664,24 @@ fn materialise(e: &Engine, plan: &crate::sqlite::Plan, script_const: Option<f64>
 fn check_c01(c: &Compiled, plan: &crate::sqlite::Plan, e: &Engine, world: &World, db: &Db, r: &mut Report) {
     let case_id = format!("{} [{}]", c.query.sql, c.dp_name);
     let us = units(db);
-    if us.is_empty() || c.ir.noised.is_empty() {
+    if c.ir.noised.is_empty() {
+        // no noise-adding projection was located in the IR: fine if the result really does not depend on the random
+        // source (published through public tables only); if it does, the reader is blind to this rewriting and saying
+        // nothing would be vacuous
+        if !us.is_empty() && r.extra.get("unlocated_noise_checked").and_then(|m| m.get(&case_id)).is_none() {
+            fill(e, world, db);
+            if let (Ok((a, _)), Ok((b, _))) = (materialise(e, plan, None, Some(&[])), materialise(e, plan, Some(0.5), Some(&[]))) {
+                if !a.rows.is_empty() {
+                    r.reach("unlocated_noise_checked", &case_id);
+                    if a.rows.len() != b.rows.len() || a.rows.iter().zip(b.rows.iter()).any(|(x, y)| x.iter().zip(y.iter()).any(|(c1, c2)| !c1.close(c2, 1e-12))) {
+                        r.machinery_errors.push(format!("the result of {case_id} depends on the random source but no noised column was located in the IR"));
+                    }
+                }
+            }
+        }
+        return;
+    }
+    if us.is_empty() {
         return;
     }
     fill(e, world, db);
